@@ -185,3 +185,38 @@ def run_expflow(ctx: Ctx) -> None:
                             return False, f"{name}: expv not applied to the input field"
                     return True, ""
                 _guard(ctx, "T11x.expflow", f"scale={scale}:steps={steps}:ac={ac}", fF, f"ExpFlow scale={scale} steps={steps} align_corners={ac}", th)
+
+
+def run_svf_steps(ctx: Ctx) -> None:
+    """The stationary velocity models with every documented number of squaring steps, including none."""
+    from .t6_transforms import TEnv
+    prog = ctx.prog
+    ctx.rule("T11x.svf-steps", "StationaryVelocityFieldTransform / StationaryVelocityFreeFormDeformation constructed with steps in {0, 1} and "
+                               "scale in {default, 1/2}: update() followed by tensor() / disp() succeeds and the buffered displacement is the "
+                               "k-step exponential of the buffered velocity (k = 0: u = scale * v)")
+    fX = prog.func("deepali.core.flow", "expv")
+    for mod, cls, kw0 in (("deepali.spatial.nonrigid", "StationaryVelocityFieldTransform", {}),
+                          ("deepali.spatial.bspline", "StationaryVelocityFreeFormDeformation", {"stride": 2})):
+        ci = prog.cls(mod, cls)
+        fU = prog.find_method(ci, "update")
+        ctx.fn(fU)
+        for steps in (0, 1):
+            for scale in (None, Fraction(1, 2)):
+                def th(mod=mod, cls=cls, kw0=kw0, steps=steps, scale=scale):
+                    env = TEnv(ctx, 2)
+                    it = env.it
+                    kw = dict(kw0, steps=steps)
+                    if scale is not None:
+                        kw["scale"] = scale
+                    t = env.make(mod, cls, kw, "buffer")
+                    it.method(t, "update")
+                    u = it.method(t, "tensor")
+                    v = it.getattr(t, "v")
+                    want = it.call(fX, v.clone(), scale=scale, steps=steps, align_corners=bool(it.method(it.method(t, "grid"), "align_corners")))
+                    if tuple(u.shape) != tuple(want.shape) or not teq(u, want):
+                        return False, f"{cls}(steps={steps}, scale={scale}): tensor() is not expv(v, scale, steps)"
+                    d = it.method(t, "disp")
+                    if tuple(d.shape) != tuple(u.shape):
+                        return False, f"disp() shape {tuple(d.shape)}"
+                    return True, ""
+                _guard(ctx, "T11x.svf-steps", f"{cls}:steps={steps}:scale={scale}", fU, f"class={cls} steps={steps} scale={scale}", th)
